@@ -64,6 +64,15 @@ theorem unknown_types_dropped (v : UInt8) (pt : Nat) (pl : Bytes) (h : pt ∉ Ge
   obtain ⟨h0, h1, h2, h3, h4, h5⟩ := h'
   simp [classify, ptHdrNack, ptRaRes, ptAliveReq, ptDiag, ptAckPos, ptAckNeg, h0, h1, h2, h3, h4, h5]
 
+/-- every `asyncio.Queue` of doip.py is unbounded.  The model relies on it twice: the reader task's `await put()`
+    never suspends (`DoipSys.settle` parses every complete frame whatever the queue holds, hence
+    `doip_alive_always_answered`), and the `put_nowait` re-queue of skipped frames never raises (`requeueFront` is
+    total, hence `doip_reads_account_for_every_frame`).  What a capacity does: `bounded_queue_starves_alive_check`. -/
+theorem queues_unbounded :
+    Gen.C06Doip.queueCaps =
+      [("DoIPConnection.self._diagnostic_message_queue", 0), ("DoIPConnection.self._read_queue", 0)] := by
+  decide
+
 /-! ### connection set-up -/
 
 /-- the routing activation request: version, inverse version, payload type 0x0005, length 7, the configured
@@ -737,6 +746,21 @@ example :
        .write [0x3E, 0x00] none]
     S.done = [⟨2000, .ack [0x22, 0xF1], .conn⟩, ⟨2010, .ack [0x3E, 0x00], .conn⟩] ∧ S.closed = true ∧
       S.queue = [] ∧ S.out.length = 1 := by
+  decide +kernel
+
+/-- why `queues_unbounded` is an obligation: with a read queue of capacity 2, three foreign diagnostic messages
+    followed by an alive-check request, arriving while the client is idle, leave the reader task suspended in `put()`
+    with the alive check unread and unanswered; the unbounded queue of the code answers it at once.  And a write that
+    skipped three frames before its acknowledgement puts three frames back: more than such a queue could take
+    (`put_nowait` would raise `QueueFull`). -/
+theorem bounded_queue_starves_alive_check :
+    let c : Cfg := ⟨0x0E00, 0x1D, 2⟩
+    let burst := encFrame 2 (.diag 0x1E 0x0E00 [1]) ++ encFrame 2 (.diag 0x1E 0x0E00 [2]) ++
+      encFrame 2 (.diag 0x1E 0x0E00 [3])
+    (settleBounded 2 c (asyncioYields true) { buf := burst ++ header 2 ptAliveReq 0 }).out = [] ∧
+    (settle c (asyncioYields true) { buf := burst ++ header 2 ptAliveReq 0 }).out = [(0, aliveResp c)] ∧
+    (exec c (asyncioYields true) {} [.write [0x3E, 0x00] none, .feed (burst ++ encFrame 2 (.ackPos 0x1D 0x0E00 []))]).queue.length
+      = 3 := by
   decide +kernel
 
 end WholeExecutions
